@@ -85,6 +85,13 @@ def run_case(ctx, case):
             ("f[0:2](u)", lambda: tuple(frac(x) for x in f[0:2](u)), full[0:2]),
             ("f[::2](u)", lambda: tuple(frac(x) for x in f[::2](u)), full[::2]),
         ]
+        # every slice form selects the rows python's own slicing selects (negative steps, open and explicit stops, empty)
+        for sl in (slice(None, None, -1), slice(n - 1, None, -1), slice(-2, None, -3), slice(1, -1, 2), slice(-3, None),
+                   slice(None, 0, -1), slice(n - 1, 0, -2), slice(2, 2), slice(None, None, 3)):
+            checks.append(("f[%s:%s:%s](u)" % (sl.start, sl.stop, sl.step),
+                           (lambda sl=sl: tuple(frac(x) for x in f[sl](u))), full[sl]))
+            checks.append(("f[%s:%s:%s,p](u)" % (sl.start, sl.stop, sl.step),
+                           (lambda sl=sl: tuple(frac(x) for x in f[sl, p](u))), full[sl]))
         for name, fn, want in checks:
             r = impl(fn)
             rec.count("index", name)
